@@ -350,10 +350,15 @@ pub type F19x2 = Fp2<19>;
 pub type F7x2 = Fp2<7>;
 
 // generators are fixed here and validated (on curve, order) by the checks at run time
+#[cfg(feature = "toy")]
 toy_curve!(t7_2, F7, Fp::<7>(2), Fp::<7>(0), Fp::<7>(3)); // y^2 = x^3 + 2 over F_7
+#[cfg(feature = "toy")]
 toy_curve!(t19_4, F19, Fp::<19>(4), Fp::<19>(1), Fp::<19>(9)); // y^2 = x^3 + 4 over F_19 (5 = 9^2 mod 19)
+#[cfg(feature = "toy")]
 toy_curve!(t19_5, F19, Fp::<19>(5), Fp::<19>(1), Fp::<19>(5)); // y^2 = x^3 + 5 over F_19 (6 = 5^2 mod 19)
+#[cfg(feature = "toy")]
 toy_curve!(t31_5, F31, Fp::<31>(5), Fp::<31>(1), Fp::<31>(0)); // generator fixed up at run time if invalid
+#[cfg(feature = "toy")]
 toy_curve!(t19x2, F19x2, Fp2::<19>::new(4, 4), Fp2::<19>::new(0, 0), Fp2::<19>::new(0, 0)); // y^2 = x^3 + 4(1+u) over F_19^2
 
 // ------------------------------------------------------------------------------------------
@@ -388,8 +393,13 @@ macro_rules! toy_access {
         }
     };
 }
+#[cfg(feature = "toy")]
 toy_access!(T7_2, t7_2, "toy(7,2)");
+#[cfg(feature = "toy")]
 toy_access!(T19_4, t19_4, "toy(19,4)");
+#[cfg(feature = "toy")]
 toy_access!(T19_5, t19_5, "toy(19,5)");
+#[cfg(feature = "toy")]
 toy_access!(T31_5, t31_5, "toy(31,5)");
+#[cfg(feature = "toy")]
 toy_access!(T19X2, t19x2, "toy(19^2,4+4u)");
